@@ -213,8 +213,8 @@ func c13Curie(r *hx.Rand, n int, out *hx.Out, _ []string) {
 			return "0"
 		}
 		out.Emit(hx.Case{Kind: "K/C13/curie",
-			Line:  "cur\t" + b(sc.Safe) + "\t" + hx.X(sc.DefaultPrefix) + "\t" + b(sc.DefaultPrefixEmpty) + "\t" + strings.Join(enc, ",") + "\t" + hx.X(v),
-			Impl:  impl, Class: fmt.Sprintf("maps=%d", len(ms)), NonTri: len(ms) > 0, Oracle: oracle, Sig: sig,
+			Line: "cur\t" + b(sc.Safe) + "\t" + hx.X(sc.DefaultPrefix) + "\t" + b(sc.DefaultPrefixEmpty) + "\t" + strings.Join(enc, ",") + "\t" + hx.X(v),
+			Impl: impl, Class: fmt.Sprintf("maps=%d", len(ms)), NonTri: len(ms) > 0, Oracle: oracle, Sig: sig,
 			In: []string{v}, Desc: fmt.Sprintf("scope=%+v mappings=%v iri=%q", sc, ms, v)})
 	}
 }
